@@ -10,6 +10,7 @@ TRUST = [
     "tools/pv/progen.py prints each generated program both as Python text and as Src.Sem syntax from one tree",
     "differential execution is evaluated by vm_compute from the same Coq definitions the theorems are about (no extraction); it is bounded by fuel and samples programs and oracles: a test, not a proof",
     "observed values are compared up to relative 2^-30 (literal printing keeps 16 significant digits, property C09)",
+    "tools/pv/pyref.py executes the device-read-free programs of corpus/c01/pyref under CPython with recording stubs for db/d0..d5, yield_, sleep (the expected effects of that stream do not depend on Src/Sem.v)",
 ]
 
 CORPUS = core.VERIF / "corpus" / "c01"
@@ -120,6 +121,11 @@ def main(tier, seed):
             run.violation("a for-range loop whose step is known only at run time does not iterate like the same loop with the step written out",
                           {"kind": "runtime_step", "step_sign": "negative" if st < 0 else "positive", "start": a, "stop": b, "step": st,
                            "source": rt, "literal_source": lit, "code": x["code"], "literal_code": y["code"], "verdict": v[0][0]})
+    # Python-reference stream: device-read-free programs whose expected effects come from CPython itself
+    from .. import pyref
+    ptexts = pyref.load_corpus()
+    pyref.stream(run, ptexts, pipeline.VECTORS, name="c01py")
+    run.cov["python_reference_programs"] = len(ptexts)
     for f in run.findings.open_for("C01"):
         if f["id"] not in run.known_hits:
             run.note(f"known finding {f['id']} did not reproduce in this run")
